@@ -30,9 +30,21 @@ def run_property(prop, tier, model=None, write=True, quiet=False):
         if model is None:
             model = Model()
         pm.run(model, rep, tier)
+        if tier == 'thorough' and write:
+            # the tree verdict above is complete; the adequacy run and the package-wide cross-reference lints only add
+            # evidence (they never change the verdict of the tree)
+            try:
+                rep.adequacy = thorough_extras(prop, model)
+            except Exception as e:  # never let the extras mask the verdict
+                rep.adequacy = {'error': repr(e)}
         code = rep.finalize(write=write)
-        if tier == 'thorough' and hasattr(pm, 'thorough_extra') and write:
-            pm.thorough_extra(model, rep)
+        if tier == 'thorough' and isinstance(rep.adequacy, dict) and not quiet:
+            a = rep.adequacy.get('mutation_selftest', {})
+            print('ADEQUACY %s: %d breaker(s) (%d caught, %d skipped), %d neutral variant(s) (%d noisy)'
+                  % (prop, a.get('breakers', 0), a.get('caught', 0), a.get('skipped', 0), a.get('neutrals', 0), a.get('noisy', 0)))
+            if (a.get('not_caught') or a.get('noisy')) and os.environ.get('SA_STRICT_ADEQUACY') == '1' and code == 0:
+                print('ANALYSIS-ERROR property=%s adequacy self-test failed' % prop)
+                return 2, rep
         return code, rep
     except AnalysisError as e:
         # a tree verdict reached so far is reported first, so that a violation is never masked by exit 2
@@ -45,6 +57,44 @@ def run_property(prop, tier, model=None, write=True, quiet=False):
             print('ANALYSIS-ERROR property=%s internal error' % prop)
             traceback.print_exc()
         return 2, rep
+
+
+def thorough_extras(prop, model):
+    """adequacy (in-memory breaker / neutral mutants of this property's rules) and package-wide cross-reference lints."""
+    from . import mutate
+    from .engines import resolve, flow
+    res = mutate.selftest(prop)
+    br, ne = res['breakers'], res['neutrals']
+    out = {'mutation_selftest': {
+        'breakers': len(br), 'caught': sum(1 for b in br if b['ok'] and b['status'] == 'applied'),
+        'skipped': sum(1 for b in br if b['status'] == 'skipped'), 'not_caught': [b for b in br if not b['ok']],
+        'neutrals': len(ne), 'noisy': sum(1 for n in ne if not n['ok']),
+        'samples': [{'file': b['file'], 'mutation': '%s  ->  %s' % (b['old'], b['new']), 'rule_fired': b['fired']} for b in br[:6]],
+        'note': 'mutants are applied to the parsed sources in memory; a mutant whose anchor text is absent from the current tree is skipped'}}
+    xr = {'undefined_names': [], 'arity': [], 'stale_loop_variables': [], 'unsafe_pops': [], 'array_valued_augassign': [], 'imports': []}
+    nfun = ncall = 0
+    for name, mod in sorted(model.modules.items()):
+        for q, n, l in resolve.undefined_names(mod):
+            xr['undefined_names'].append('%s:%s %s' % (mod.relpath, q, n))
+        for node, t, ok, msg in resolve.check_imports(model, mod):
+            if not ok:
+                xr['imports'].append('%s:%d %s' % (mod.relpath, node.lineno, t))
+        for call, t, ok, msg, r in resolve.check_arity(model, mod, mod.tree):
+            ncall += 1
+            if not ok:
+                xr['arity'].append('%s:%d %s -- %s' % (mod.relpath, call.lineno, t[:80], msg))
+        for q, fn in mod.functions.items():
+            nfun += 1
+            for node, nm, lp in flow.stale_loop_variables(fn):
+                xr['stale_loop_variables'].append('%s:%d %s %s' % (mod.relpath, node.lineno, q, nm))
+            for lp, c, why in flow.unsafe_pops(fn):
+                xr['unsafe_pops'].append('%s:%d %s' % (mod.relpath, lp.lineno, q))
+            for node, idx in flow.fancy_augassign(fn):
+                xr['array_valued_augassign'].append('%s:%d %s [%s]' % (mod.relpath, node.lineno, q, idx))
+    xr['scanned'] = {'modules': len(model.modules), 'functions': nfun, 'call_sites': ncall}
+    xr['note'] = 'package-wide lints, cross-reference only: they are reported here and never decide this property'
+    out['cross_reference'] = xr
+    return out
 
 
 def main(argv=None):
